@@ -31,7 +31,7 @@ CHECKS = {
     'labelled-process oracle on every real row.', 'PT3 (the coalescent is this particle system) is textbook. '),
  'C05': entry('Lean 4 proof on the code model of Demography.epochs (tiling, value in force, lookup, order independence) + correspondence',
     'Theorems on the model of the epochs generator; kernel-checked counterexamples for the three historic defects. 1500 random event lists per run '
-    '(all event classes, shapes, orders, add_event) diffed epoch by epoch against the model and against an independent Spec; the split orientation '
+    '(all event classes, shapes, orders, add_event) diffed epoch by epoch against the model and against an independent Spec; random histories on the mutable object (constructor / add_events / add_event / epochs / reads / Coalescent) against PGModel/DemoObj; the split orientation '
     'is a listed known finding (baseline test pins it).', 'Mixed schedules (discretised + discrete + split events) have whole-schedule theorems (mixed_*); the float ceil of non-dyadic step counts is exercised, not proved (partial). '),
  'C06': entry('Lean 4 proof (two-locus lumping, marginal strong lumping for every r, r=0 coincidence) + correspondence',
     'Theorems: two-locus chain = lumping of the ARG stopped at absorption; each locus is a strong lumping onto the single-locus chain for every r; '
